@@ -409,7 +409,8 @@ def part_block(ctx, rep, hook, mdl, seg):
             sides.append(lines)
         allsecs = [t for lines in sides for (_, syn, dif) in lines for t in syn + dif]
         seg.many(allsecs)
-        fields = [f_cfg(seg, maxl, rng.choice([0, 370, 1000]), DEFAULT_SYMS), str(lw[0]), str(lw[1]), str(len(al))]
+        bsyms = DEFAULT_SYMS if rng.random() < 0.9 else rng.choice([("日", "↴", "…"), ("​", "↴", "…"), ("↵", "本", "…")])
+        fields = [f_cfg(seg, maxl, rng.choice([0, 370, 1000]), bsyms), str(lw[0]), str(lw[1]), str(len(al))]
         for m, p in al:
             fields += ["-" if m is None else str(m), "-" if p is None else str(p)]
         for side, lines in enumerate(sides):
@@ -422,6 +423,7 @@ def part_block(ctx, rep, hook, mdl, seg):
                 fields.append(f_sections([(i + 1, seg.one(t)) for i, t in enumerate(dif)]))
         reqs.append("wrap.block " + " ".join(fields))
         cases.append(dict(op="wrap.block", alignment=[list(x) for x in al], lw=lw, max_lines=maxl, valid_alignment=valid,
+                          syms=list(bsyms), symbol_width_1=all(seg.width(x) == 1 for x in bsyms[:2]),
                           minus=[(s_, d_) for _, s_, d_ in sides[0]], plus=[(s_, d_) for _, s_, d_ in sides[1]]))
     model = mdl.ask(reqs, timeout=600) if mdl else [None] * len(reqs)
     send = [i for i, m in enumerate(model) if m != "HANG"]
@@ -448,7 +450,9 @@ def judge_block(rep, case, req, a, m):
         msg = unhx(a.split()[1]).decode("utf-8", "replace")
         if case["valid_alignment"]:
             if "syntax and diff wrapping differs" in msg:
-                viol(rep, "panic:wrap_block:syntax-and-diff-wrapping-differs:zero-width-cluster"
+                viol(rep, "panic:wrap_block:syntax-and-diff-wrapping-differs:wrap-symbol-width-not-1"
+                     if not case.get("symbol_width_1", True)
+                     else "panic:wrap_block:syntax-and-diff-wrapping-differs:zero-width-cluster"
                      if any(ZW in t for l_ in case["minus"] + case["plus"] for t in l_[0])
                      else "panic:wrap_block:syntax-and-diff-wrapping-differs",
                      "wrap_minusplus_block panicked on a well-formed alignment: " + msg[:80],
@@ -503,7 +507,8 @@ def oracle_block(rep, case, answer, req):
             t1, t2 = "".join(t for _, t in r1), "".join(t for _, t in r2)
             if t1 != t2:
                 zwc = ZW in t1 or ZW in t2
-                viol(rep, "wrap_block:syntax-and-diff-rows-differ" + (":zero-width-cluster" if zwc else ""),
+                viol(rep, "wrap_block:syntax-and-diff-rows-differ" +
+                     (":wrap-symbol-width-not-1" if not case.get("symbol_width_1", True) else ":zero-width-cluster" if zwc else ""),
                               f"row {k}: syntax sections read {t1!r}, diff sections read {t2!r} (superimposing panics)",
                               dict(case, got=answer, request=req))
                 return
@@ -800,6 +805,7 @@ def limited_run_delta(ctx, args, stdin_bytes, timeout):
 
 WITNESS_HANG = ("diff --git a/f.txt b/f.txt\n--- a/f.txt\n+++ b/f.txt\n@@ -1 +1 @@\n-日本語\n+日本\n")
 WITNESS_ZW = ("diff --git a/f.rs b/f.rs\n--- a/f.rs\n+++ b/f.rs\n@@ -1 +1 @@\n-fn main() ​x x } value;\n+fn main() ​x x } value; y\n")
+WITNESS_WIDESYM = ("diff --git a/x.py b/x.py\n--- a/x.py\n+++ b/x.py\n@@ -1,3 +1,2 @@ class X:\n-baz) \"str\"\n")
 WITNESS_TRUNC = ("diff --git a/f.txt b/f.txt\n--- a/f.txt\n+++ b/f.txt\n@@ -1,2 +1,2 @@\n-abcd日本語 x = 1\n+abcd日本語 x = 2\n ctx\n")
 
 
@@ -829,6 +835,9 @@ def part_binary(ctx, rep, seg):
         add(WITNESS_ZW, "rs", "zw", w, "2", gen="witness-zero-width")
     for w in (24, 25, 26, 27, 28):
         add(WITNESS_TRUNC, "txt", "mixed", w, "0", gen="witness-truncate")
+    for w in (20, 21, 22, 23):
+        add(WITNESS_WIDESYM, "py", "mixed", w, "2", extra=["--wrap-left-symbol", "日"], syms=("日", "↴", "…"),
+            gen="witness-wide-symbol")
     for _ in range(ctx.n(260, 10000)):
         diff, hunks, ext, kind = gen_diff(rng)
         markers = rng.random() < 0.2
@@ -845,6 +854,10 @@ def part_binary(ctx, rep, seg):
         if rng.random() < 0.15:
             syms = ("+", "<", ">")
             extra += ["--wrap-left-symbol", "+", "--wrap-right-symbol", "<", "--wrap-right-prefix-symbol", ">"]
+        elif rng.random() < 0.04:
+            ws = rng.choice(["日", "​"])
+            syms = (ws, "↴", "…")
+            extra += ["--wrap-left-symbol", ws]
         if markers:
             extra += ["--keep-plus-minus-markers"]
         if rng.random() < 0.15:
@@ -913,6 +926,22 @@ def oracle_binary(ctx, rep, seg, case, rc, err, rows):
     rep.count("binary:text-width=" + ("2" if lw <= 2 else "3-9" if lw < 10 else "10-29" if lw < 30 else "30+"))
     rep.count("binary:wrap-max-lines=" + case["wrap_max_lines"])
     key = (case["diff"], tuple(case["args"]))
+    sym1 = all(seg.width(x) == 1 for x in case["syms"])
+    if not sym1:
+        # a wrap symbol that is not one column wide: delta's option check is meant to refuse it
+        rep.count("binary:wrap-symbol-width-not-1")
+        rep.case(key=key, nontrivial=True)
+        if rc == 2 and "Invalid value for wrap-" in err:
+            rep.count("binary:wrap-symbol-rejected")
+        elif rc == "timeout":
+            viol(rep, "hang:side-by-side:wrap-symbol-width-not-1", "delta --side-by-side did not terminate", replay)
+        elif rc != 0:
+            m = re.search(r"panicked at ([^\n]*)\n([^\n]*)", err)
+            viol(rep, "panic:side-by-side:syntax-and-diff-wrapping-disagree:wrap-symbol-width-not-1"
+                 if ("String mismatch encountered while superimposing" in err or "syntax and diff wrapping differs" in err)
+                 else "crash:side-by-side:wrap-symbol-width-not-1:rc=%s" % rc,
+                 "delta --side-by-side failed: " + ((m.group(1) + " " + m.group(2)) if m else err[-200:])[:160], replay)
+        return
     if rc == "timeout":
         rep.case(key=key, nontrivial=True)
         sig = "hang:side-by-side:cluster-wider-than-text-width-minus-symbol" if wide_cluster else "hang:side-by-side"
